@@ -7,6 +7,7 @@ import (
 	"sort"
 	"strings"
 	"sync"
+	"sync/atomic"
 
 	stackage "github.com/JesseCoretta/go-stackage"
 	"verifharness/core"
@@ -150,11 +151,45 @@ type c11Target struct {
 	stacks []stackage.Stack     // root and nested stacks
 }
 
-func c11Build(r *core.Rng) *c11Target {
+// freshTypeCounter mints element types no earlier case of this process has seen (a per-type cache filled lazily on a
+// read path is only written the first time a type is met).
+var freshTypeCounter atomic.Int64
+
+func init() {
+	extraLeaf["fresh-type"] = func(l *LeafDesc) any {
+		n := int(freshTypeCounter.Add(1)) + 1000
+		return reflect.New(reflect.ArrayOf(n, reflect.TypeOf(struct{}{}))).Elem().Interface()
+	}
+}
+
+func c11Build(r *core.Rng, fresh ...int) *c11Target {
 	t := &c11Target{tree: c11Gen.Gen(r)}
+	if len(fresh) > 0 {
+		// many never-seen element types directly in the root and in the first nested stack
+		for i := 0; i < fresh[0]; i++ {
+			t.tree.Kids = append(t.tree.Kids, &TNode{T: "leaf", Leaf: &LeafDesc{Tag: "fresh-type"}})
+		}
+		for _, k := range t.tree.Kids {
+			if k.T == "stack" {
+				for i := 0; i < fresh[0]/2; i++ {
+					k.Kids = append(k.Kids, &TNode{T: "leaf", Leaf: &LeafDesc{Tag: "fresh-type"}})
+				}
+				break
+			}
+		}
+	}
 	if r.Chance(1, 3) {
 		t.tree.ReadOnly = true
 	}
+	// pure validity policies (accepting and rejecting) on some stacks: Valid/String/Traverse consult them
+	t.tree.Walk(func(n *TNode) {
+		if n.T == "stack" && r.Chance(1, 5) {
+			n.VPol = 1 + r.Intn(2)
+		}
+		if n.T == "stack" && r.Chance(1, 6) {
+			n.Kids = append(n.Kids, &TNode{T: "leaf", Leaf: &LeafDesc{Tag: "fresh-type"}})
+		}
+	})
 	t.root = t.tree.BuildStack()
 	t.twin = t.tree.BuildStack()
 	var walk func(s stackage.Stack, d int)
@@ -162,11 +197,13 @@ func c11Build(r *core.Rng) *c11Target {
 		t.stacks = append(t.stacks, s)
 		for i := 0; i < s.Len() && d < 6; i++ {
 			v, _ := s.Index(i)
-			if ns, ok := stackage.ConvertStack(v); ok && ns.IsInit() {
+			// harness-side type switches only: the library's converters must meet unseen element types for the
+			// first time during the (possibly concurrent) queries, not while the harness walks the tree
+			if ns, ok := knownStack(v); ok && ns.IsInit() {
 				walk(ns, d+1)
-			} else if cd, ok := stackage.ConvertCondition(v); ok && cd.IsInit() {
+			} else if cd, ok := knownCond(v); ok && cd.IsInit() {
 				t.conds = append(t.conds, cd)
-				if ns, ok := stackage.ConvertStack(cd.Expression()); ok && ns.IsInit() {
+				if ns, ok := knownStack(cd.Expression()); ok && ns.IsInit() {
 					walk(ns, d+1)
 				}
 			}
@@ -286,17 +323,24 @@ func c11Sequential(c *core.Ctx) {
 
 func c11Concurrent(c *core.Ctx) {
 	r := c.Rng
-	t := c11Build(r)
+	t := c11Build(r, 16)
 	s0, _ := Take(t.root)
 	type q struct {
 		recv reflect.Value
 		spec CallSpec
 		want []any
 	}
+	// cold start on every other tree: the parallel phase comes FIRST (so that anything computed lazily on first use
+	// is computed concurrently), the isolated answers are taken afterwards
+	cold := c.Idx%2 == 0
 	var qs []q
 	add := func(recv reflect.Value, calls []CallSpec, twin any) {
 		for _, cs := range calls {
 			spec := CallSpec{Method: cs.Method, Args: c11Args(cs, twin), Desc: cs.Desc}
+			if cold {
+				qs = append(qs, q{recv, spec, nil})
+				continue
+			}
 			res, pan, _, _ := Invoke(recv, spec)
 			if pan {
 				continue
@@ -318,6 +362,12 @@ func c11Concurrent(c *core.Ctx) {
 	var wg sync.WaitGroup
 	var mu sync.Mutex
 	var bad []string
+	type obs struct {
+		tag  int
+		desc string
+		ans  []any
+	}
+	var got []obs
 	start := make(chan struct{})
 	for w := 0; w < workers; w++ {
 		seed := r.U64()
@@ -335,6 +385,14 @@ func c11Concurrent(c *core.Ctx) {
 					mu.Unlock()
 					return
 				}
+				if cold {
+					if n < 40 {
+						mu.Lock()
+						got = append(got, obs{wr.Intn(1 << 30), k.spec.Desc, answersOf(res)})
+						mu.Unlock()
+					}
+					continue
+				}
 				if !answersEq(k.want, answersOf(res)) {
 					mu.Lock()
 					bad = append(bad, fmt.Sprintf("%s answered %s concurrently, %v in isolation", k.spec.Desc, ResultDesc(res), k.want))
@@ -348,6 +406,24 @@ func c11Concurrent(c *core.Ctx) {
 	wg.Wait()
 	c.Add("queries.concurrent", int64(workers*rounds*len(qs)/4))
 	c.Count("trees.concurrent")
+	if cold {
+		c.Count("trees.concurrent.cold-start")
+		iso := map[string][]any{}
+		for _, k := range qs {
+			if res, pan, _, _ := Invoke(k.recv, k.spec); !pan {
+				if _, dup := iso[k.spec.Desc]; !dup {
+					iso[k.spec.Desc] = answersOf(res)
+				}
+			}
+		}
+		for _, o := range got {
+			// several receivers share call descriptions; only unambiguous ones are compared
+			if want, ok := iso[o.desc]; ok && len(qs) > 0 && !answersEq(want, o.ans) && c11Unique(qs2descs(len(qs), func(i int) string { return qs[i].spec.Desc }), o.desc) {
+				bad = append(bad, fmt.Sprintf("%s answered %v concurrently (cold start), %v in isolation", o.desc, o.ans, want))
+				break
+			}
+		}
+	}
 	if len(bad) > 0 {
 		c.Violatef("concurrent-answer", map[string]any{"tree": t.tree}, "%s", bad[0])
 		return
@@ -358,6 +434,24 @@ func c11Concurrent(c *core.Ctx) {
 		return
 	}
 	c.NontrivialStr("conc|" + core.JSON(t.tree))
+}
+
+func qs2descs(n int, f func(int) string) []string {
+	out := make([]string, n)
+	for i := range out {
+		out[i] = f(i)
+	}
+	return out
+}
+
+func c11Unique(all []string, d string) bool {
+	n := 0
+	for _, x := range all {
+		if x == d {
+			n++
+		}
+	}
+	return n == 1
 }
 
 func c11Run(c *core.Ctx, idx int) {
@@ -437,10 +531,10 @@ func init() {
 		Setup:    c11Setup,
 		Teardown: c11Teardown,
 		Race:     true,
-		Rule: "sequential: random trees (depth <= 3; Conditions with Stack/Condition expressions, aliases, nil slots, every presentation/index option, mutex on 30% of the stacks, read-only on a third of the roots); every judged query " +
+		Rule: "sequential: random trees (depth <= 3; Conditions with Stack/Condition expressions, aliases, nil slots, every presentation/index option, mutex on 30% of the stacks, pure accepting/rejecting validity policies on a fifth, read-only on a third of the roots); every judged query " +
 			"(the statement's list plus every Is*/Can* method, enumerated by reflection, each with argument variants) is issued on the root, on one nested Stack and on one Condition: answer recorded, recursive VerifDump snapshot compared, " +
 			"every container in the answer overwritten, query repeated: same answer, snapshot still identical; the lock-point hook must see no lock acquisition during a query. concurrent (whole run under the Go race detector): answers of the full query list computed in isolation, then 8..16 goroutines issue random queries " +
-			"against the one structure; every answer must equal the isolated one, the snapshot must be unchanged and the race log must be empty. non-trivial = tree of depth >= 2 containing a Condition; distinct = tree description.",
+			"against the one structure; every answer must equal the isolated one, the snapshot must be unchanged and the race log must be empty; every other tree is a cold start (parallel phase first, isolated answers afterwards) and every tree carries element types never seen before in the process, so that lazily filled caches are filled concurrently. non-trivial = tree of depth >= 2 containing a Condition; distinct = tree description.",
 		Assumptions: []string{
 			"methods are classified by name (declared mutators / unjudged getters / queries); an exported method in none of the lists makes the run inconclusive",
 			"getters the statement does not list (ID, Category, Delimiter, Err, Auxiliary, LogLevels, Logger, Addr, Keyword, Operator, Expression, Evaluate) are not judged",
